@@ -65,6 +65,10 @@ func (rv *respValue) serializeBlobErrorString(sb *strings.Builder, data respBlob
 }
 
 func (rv *respValue) serializeSimpleString(sb *strings.Builder, data string) {
+	// a simple string or error is one line: text quoted from client input must not break the framing
+	if strings.ContainsAny(data, "\r\n") {
+		data = strings.NewReplacer("\r", " ", "\n", " ").Replace(data)
+	}
 	sb.WriteString(fmt.Sprintf("%s\r\n", data))
 }
 
